@@ -25,6 +25,23 @@ TRUSTED = ["f64 Display prints finite values as decimal numerals the lexer reads
            "str::find / the string scanner stop at the first quote, so a string literal payload contains none"]
 
 
+def listing_not_rewritten(ck, F):
+    """The listing of a line is number + blank + the tokens' spellings joined by blanks + newline -- the joined text goes into the
+    line as it is.  Any textual rewriting of it (`replace("( ", "(")`, trimming, case folding) also rewrites what is inside
+    string literals, quoted DATA items and REM text, which reload as different values."""
+    from lib import with_helpers
+    lb = get_fn(ck, F, "ProgramLines::list")
+    if lb is None:
+        return
+    rew = sorted({c.callee.split("::")[-1] for b in with_helpers(F, lb) for c in b.calls()
+                  if c.callee.split("::")[-1] in ("replace", "replacen", "trim", "trim_end", "trim_start", "trim_matches", "trim_end_matches", "trim_start_matches", "to_uppercase", "to_lowercase", "to_ascii_uppercase", "to_ascii_lowercase", "retain", "strip_suffix", "strip_prefix", "split_whitespace", "truncate", "drain", "remove", "pop", "chars", "char_indices", "bytes")
+                  and ("<impl str>" in c.callee or "String" in c.callee)})
+    ck.require(not rew, "C14:SHAPE:joined-text-not-rewritten", "listing shape",
+               "list() applies no string-rewriting operation to the text it prints",
+               "ProgramLines::list rewrites the text of the line it prints (%s): blanks or characters inside string literals, DATA items "
+               "and REM text change, so the reloaded listing is a different program" % ", ".join(rew), lb.span)
+
+
 def data_cursor_rule(ck, F):
     """"identical behaviour under RUN, including the sequence of DATA items READ sees": two programs with the same listing hold
     the same lines, so the items READ sees must be a function of the stored lines alone.  ProgramLines::data_iterator (with
@@ -41,6 +58,36 @@ def data_cursor_rule(ck, F):
                "ProgramLines::data_iterator also depends on ProgramLines.%s: the DATA items a run sees are no longer determined by "
                "the stored lines (which is all a listing carries), so a program and its reloaded listing can READ different "
                "items" % ",".join(extra), di.span)
+
+
+def quoted_items_are_opaque(ck, F):
+    """Inside a double-quoted DATA item (or INPUT reply) only the closing quote is special: a path of DataParser::parse_char that
+    treats `,` as an item separator or `:` as the end of the statement has established that the parser is NOT inside quotes
+    (a test of `state` on that path).  A flattened `match char` whose `','` arm lost that guard splits "Smith, John" in two."""
+    from lib import path_records
+    b = F.one("DataParser::parse_char")
+    if b is None:
+        ck.missing("C14:DATA:quoted-items-opaque", "DataParser::parse_char")
+        return
+    bad = []
+    n = 0
+    for r in path_records(b):
+        ch = [d[2] for d in r["decisions"] if d[2] in (44, 58) and "state" not in d[0] and "is_finished" not in d[0]]
+        if not ch:
+            continue
+        acts = [c.callee.split("::")[-1] for c in r["calls"]]
+        if not ("push_current_element" in acts or "finish" in acts):
+            continue
+        n += 1
+        st = [d for d in r["decisions"] if ".state" in d[0] or "state" in d[0].split("(")[-1]]
+        normal = any(d[2] == "Normal" or (d[2] is False and "InDoubleQuotedString" in d[0]) or (d[2] is True and "Normal" in d[0]) or
+                     (d[2] is False and "eq" in d[0]) for d in st)
+        if not normal:
+            bad.append("`%s` acts as a separator without a test of the quoting state" % chr(ch[0]))
+    ck.require(n > 0 and not bad, "C14:DATA:quoted-items-opaque", "DATA renderer vs parser",
+               "%d separator paths, each guarded by the parser not being inside quotes" % n,
+               "DataParser::parse_char: %s -- a quoted item containing that character is split (and EXTRA IGNORED reported for an "
+               "INPUT reply like \"Smith, John\")" % "; ".join(sorted(set(bad))), b.span)
 
 
 def data_parser_stops(ck, F):
@@ -166,8 +213,10 @@ def run(ck, F, E):
     ck.require(dt.get("StringLiteral", {}).get("pieces") == ['"', None, '"'], "C14:SPECIAL:StringLiteral", "inverse tables",
                "string literals render between double quotes", "StringLiteral renders as %r" % dt.get("StringLiteral", {}).get("pieces"))
     string_text_rule(ck, F)
+    listing_not_rewritten(ck, F)
     data_cursor_rule(ck, F)
     data_parser_stops(ck, F)
+    quoted_items_are_opaque(ck, F)
     ck.require(dt.get("Symbol", {}).get("pieces") == [None] and dt.get("NumericLiteral", {}).get("pieces") == [None],
                "C14:SPECIAL:Symbol/Numeric", "inverse tables", "symbols and numerals render as their Display text only",
                "Symbol / NumericLiteral render with extra text")
